@@ -800,7 +800,7 @@ func checkMaybeNilFields(c *Ctx, rule string, scope func(*ssa.Function) bool) in
 			if _, seen := uses[fo]; !seen {
 				fields = append(fields, fo)
 			}
-			uses[fo] = append(uses[fo], use{fn, CallSite{fn, cs.Instr}, name, f.Name()})
+			uses[fo] = append(uses[fo], use{fn: fn, cs: CallSite{Fn: fn, Instr: cs.Instr}, name: name, m: f.Name()})
 		}
 	}
 	sort.Slice(fields, func(i, j int) bool { return fields[i].Pos() < fields[j].Pos() })
